@@ -166,3 +166,118 @@ async fn shared_ancestor_estimate_contract() {
         }
     }
 }
+
+/// C05: the tip moves only to a chain that is strictly longer, carries at least as much cumulative burn fee over the
+/// diverging segment and reaches above the current tip; and such a chain is chosen
+#[tokio::test]
+#[serial_test::serial]
+async fn longest_chain_rule_contract() {
+    let mut rng = Rng::from_env();
+    let t = TestManager::default();
+    let mut bc = t.blockchain_lock.write().await;
+    for round in 0..400 {
+        bc.blocks.clear();
+        bc.blockring = crate::core::consensus::blockring::BlockRing::new(100);
+        bc.blockring.empty = false;   // cleared by Blockchain::add_block once the first block is in
+        let shared = 1 + rng.below(3);
+        let n_old = rng.below(4) as usize;
+        let n_new = 1 + rng.below(5) as usize;
+        // current chain: ids 1..=shared+n_old on the ring
+        let mut old_chain = vec![]; let mut new_chain = vec![];
+        for id in 1..=(shared + n_old as u64) {
+            let mut b = Block::new(); b.id = id; b.hash = [id as u8; 32]; b.burnfee = rng.below(50);
+            bc.blockring.add_block(&b); bc.blockring.on_chain_reorganization(id, b.hash, true);
+            if id > shared { old_chain.insert(0, b.hash); }
+            bc.blocks.insert(b.hash, b);
+        }
+        for k in 1..=(n_new as u64) {
+            let mut b = Block::new(); b.id = shared + k; b.hash = [0x80 + (shared + k) as u8; 32]; b.burnfee = rng.below(50);
+            new_chain.insert(0, b.hash);
+            bc.blocks.insert(b.hash, b);
+        }
+        let old_bf: u64 = old_chain.iter().map(|h| bc.blocks.get(h).unwrap().burnfee).sum();
+        let new_bf: u64 = new_chain.iter().map(|h| bc.blocks.get(h).unwrap().burnfee).sum();
+        let tip = shared + n_old as u64;
+        let new_tip = shared + n_new as u64;
+        let expected = old_chain.len() < new_chain.len() && old_bf <= new_bf && tip < new_tip;
+        let got = bc.is_new_chain_the_longest_chain(&new_chain, &old_chain);
+        if got != expected {
+            witness(format!("round {}: current segment {} blocks with burn fees summing to {}, candidate segment {} blocks summing to {}, tip id {} vs candidate tip id {}: is_new_chain_the_longest_chain = {}, the fork-choice rule says {}",
+                round, old_chain.len(), old_bf, new_chain.len(), new_bf, tip, new_tip, got, expected));
+        }
+    }
+}
+
+#[derive(Debug, PartialEq, Eq, Clone)]
+struct LedgerSnapshot { tip: (u64, SaitoHash), ring_tip: (u64, SaitoHash), chain: Vec<Option<SaitoHash>>, flags: Vec<(SaitoHash, bool)>, spendable: Vec<SaitoUTXOSetKey>, wallet: (Currency, usize), stored: usize }
+async fn ledger_snapshot(t: &TestManager, max_id: u64) -> LedgerSnapshot {
+    let bc = t.blockchain_lock.read().await;
+    let mut flags: Vec<(SaitoHash, bool)> = bc.blocks.iter().map(|(h, b)| (*h, b.in_longest_chain)).collect(); flags.sort();
+    let mut spendable: Vec<SaitoUTXOSetKey> = bc.utxoset.iter().filter(|(_, v)| **v).map(|(k, _)| *k).collect(); spendable.sort();
+    let w = t.wallet_lock.read().await;
+    LedgerSnapshot { tip: (bc.get_latest_block_id(), bc.get_latest_block_hash()), ring_tip: (bc.blockring.get_latest_block_id(), bc.blockring.get_latest_block_hash()),
+        chain: (1..=max_id).map(|id| bc.blockring.get_longest_chain_block_hash_at_block_id(id)).collect(), flags, spendable,
+        wallet: (w.get_available_balance(), w.get_unspent_slip_count() as usize), stored: bc.blocks.len() }
+}
+
+/// C04 (first sentence): a fork of n+1 blocks overtakes a segment of n blocks; its p-th block is invalid (wrong burn fee,
+/// re-signed by the producer, and it replays a transaction of the shared part, i.e. names an input spent long ago).
+/// Whatever n and p: after the rejected reorganisation tip, index, on-chain flags, spendable outputs and wallet are
+/// what they were before the last fork block was offered.
+#[test]
+#[serial_test::serial]
+fn rejected_reorg_leaves_no_trace() {
+    let (tx_done, rx_done) = std::sync::mpsc::channel::<Option<String>>();
+    std::thread::spawn(move || {
+        let rt = tokio::runtime::Builder::new_current_thread().enable_all().build().unwrap();
+        rt.block_on(async move {
+            for n in 1..=3u64 {
+                for p in 1..=(n + 1) {
+                    let mut t = TestManager::default();
+                    t.initialize(100, 200_000_000_000_000).await;
+                    let (b1, ts) = { let bc = t.blockchain_lock.read().await; let b = bc.get_latest_block().unwrap(); (b.hash, b.timestamp) };
+                    let sk = { t.wallet_lock.read().await.private_key };
+                    // shared block 2 spends an output of block 1
+                    let mut b2 = t.create_block(b1, ts + 120000, 1, 1000, 0, true).await; b2.generate().unwrap(); let b2h = b2.hash;
+                    let spent_tx = b2.transactions.iter().find(|tx| tx.transaction_type == TransactionType::Normal && !tx.from.is_empty()).unwrap().clone();
+                    t.add_block(b2).await;
+                    let mut prev = b2h;
+                    for k in 1..=n { let mut b = t.create_block(prev, ts + 120000 * (k + 1), 0, 0, 0, true).await; b.generate().unwrap(); prev = b.hash; t.add_block(b).await; }
+                    let main_tip = prev;
+                    let mut prev = b2h; let mut last = None;
+                    for k in 1..=(n + 1) {
+                        let mut b = t.create_block(prev, ts + 120000 * (k + 1) + 1, 0, 0, 0, true).await;
+                        if k == p { b.transactions.push(spent_tx.clone()); b.burnfee += 1; b.sign(&sk); }
+                        b.generate().unwrap(); prev = b.hash;
+                        if k == n + 1 { last = Some(b); } else { t.add_block(b).await; }
+                    }
+                    assert_eq!(t.blockchain_lock.read().await.get_latest_block_hash(), main_tip, "a fork that is not longer must not move the tip");
+                    let before = ledger_snapshot(&t, n + 4).await;
+                    let _ = t.add_block(last.unwrap()).await;
+                    let mut after = ledger_snapshot(&t, n + 4).await;
+                    after.stored = before.stored;   // whether the rejected block itself stays stored is not compared
+                    let flags_after: Vec<_> = after.flags.iter().filter(|(h, _)| before.flags.iter().any(|(h2, _)| h2 == h)).cloned().collect();
+                    after.flags = flags_after;
+                    if after != before {
+                        let what = if after.tip != before.tip { "tip" } else if after.ring_tip != before.ring_tip { "index tip" } else if after.chain != before.chain { "by-height index" }
+                            else if after.flags != before.flags { "on-chain flags" } else if after.spendable != before.spendable { "spendable outputs" } else { "wallet" };
+                        let _ = tx_done.send(Some(format!("segment of {} block(s) vs fork of {} whose block #{} is invalid: after the rejected reorganisation the {} differ(s) — tip {:?}→{:?}, spendable outputs {}→{}, wallet {:?}→{:?}",
+                            n, n + 1, p, what, before.tip.0, after.tip.0, before.spendable.len(), after.spendable.len(), before.wallet, after.wallet)));
+                        return;
+                    }
+                }
+            }
+            let _ = tx_done.send(None);
+        });
+    });
+    match rx_done.recv_timeout(std::time::Duration::from_secs(120)) {
+        Ok(None) => {}
+        Ok(Some(w)) => witness(w),
+        Err(_) => {
+            use std::io::Write;
+            let _ = writeln!(std::io::stderr(), "WITNESS: Blockchain::add_block did not return within 120 s in one of the failed-reorganisation scenarios");
+            let _ = writeln!(std::io::stderr(), "test core::consensus::blockchain::verif_replay::rejected_reorg_leaves_no_trace ... FAILED");
+            std::process::exit(3);
+        }
+    }
+}
